@@ -627,8 +627,9 @@ def known_trigger(name, d):
     return None
 
 
-def check_tables(name, func):
-    """C17 on the implementation, after py_genout tagged the p-th class constraint with dual value p:
+def check_tables(name, func, injected=True):
+    """C17 on the implementation, after py_genout stored dual_tag(p) (values of both signs) on the p-th class
+    constraint (injected=True), or after a real solve (injected=False: whatever the solver stored):
     every table has one row per sample of its first list / one column per recorded sample, carries the point
     names as labels; cell (i, j) of the dual table is the tag of THE constraint named for that condition and
     pair, 0 iff there is none; every named class constraint sits in exactly one cell; names carry function id
@@ -677,9 +678,13 @@ def check_tables(name, func):
                     if el.get_name() != nm:
                         out.append(dict(kind="cell-holds-constraint-of-another-pair", condition=key, i=i, j=j,
                                         name=el.get_name(), expected=nm))
-                    if K.T.to_fraction(dd.values[i][j]) != pos:
+                    stored = el._dual_variable_value
+                    if stored is None or K.T.to_fraction(dd.values[i][j]) != K.T.to_fraction(stored):
                         out.append(dict(kind="dual-not-the-multiplier-of-the-cell-constraint", condition=key, i=i, j=j,
-                                        got=str(dd.values[i][j]), want=pos))
+                                        got=str(dd.values[i][j]), stored=str(stored), position=pos))
+                    elif injected and K.T.to_fraction(stored) != K.T.to_fraction(K.dual_tag(pos)):
+                        out.append(dict(kind="cell-object-carries-the-tag-of-another-position", condition=key, i=i,
+                                        j=j, stored=str(stored), position=pos))
                     seen[pos] = seen.get(pos, 0) + 1
                 else:
                     if K.T.to_fraction(dd.values[i][j]) != 0:
@@ -760,13 +765,13 @@ def regression_linear_adjoint():
                             % ("missing" if df is None else "of shape %r" % (df.values.shape,), nT)))
         else:
             for k, c in enumerate(M.list_of_class_constraints):
-                c._dual_variable_value = float(k)
+                c._dual_variable_value = K.dual_tag(k)
             for d in check_tables("LinearOperator", M):
                 out.append(dict(kind="regression-F-C17b", what="table check", detail=d))
                 break
             dv = M.get_class_constraints_duals()["adjoint"].values
             got = [[float(v) for v in row] for row in dv]
-            if not out and got != [[float(i * nT + j) for j in range(nT)] for i in range(2)]:
+            if not out and got != [[K.dual_tag(i * nT + j) for j in range(nT)] for i in range(2)]:
                 out.append(dict(kind="regression-F-C17b", what="duals table %r" % (got,)))
         if out:
             break
